@@ -80,16 +80,23 @@ class G:
             return "custom:" + r.choice(self.custom_ids)
         return "zone:" + r.choice(ZONES)
 
+    def year(self, early_ok=True):
+        r = self.rng
+        if early_ok and r.randrange(25) == 0:
+            return r.choice((1, 9, 99, 100, 999, 1000, 1582, 1899, 9999))
+        return r.randrange(1970, 2037)
+
     def date(self):
         r = self.rng
-        return ("d", r.randrange(1970, 2037), r.randrange(1, 13), r.randrange(1, 29))
+        return ("d", self.year(), r.randrange(1, 13), r.randrange(1, 29))
 
     def dt(self, tz="any", allow_custom=True):
         r = self.rng
         if tz == "any":
             tz = self.tz(allow_custom)
         # keep wall times out of the 00:00-04:00 window so that gaps/folds (C11's subject) are not hit here
-        return ("dt", r.randrange(1971, 2037), r.randrange(1, 13), r.randrange(1, 29), r.randrange(5, 24), r.randrange(60), r.randrange(60), tz)
+        y = self.year(early_ok=tz in (None, "UTC"))
+        return ("dt", max(y, 1971) if tz not in (None, "UTC") else y, r.randrange(1, 13), r.randrange(1, 29), r.randrange(5, 24), r.randrange(60), r.randrange(60), tz)
 
     def td(self, positive=True):
         r = self.rng
@@ -101,10 +108,10 @@ class G:
 
     def period(self, tz):
         s = self.dt(tz)
-        if self.rng.randrange(2):
+        if self.rng.randrange(2) or s[1] >= 9999:
             return ("period", s, ("td", self.rng.choice((900, 3600, 86400, 5400))))
         e = list(s)
-        e[1] = min(2037, e[1] + 1)
+        e[1] = e[1] + 1
         return ("period", s, tuple(e))
 
     def recur(self):
@@ -204,9 +211,9 @@ class G:
     def later(self, start):
         r = self.rng
         if start[0] == "d":
-            return ("d", min(2037, start[1] + r.randrange(0, 2)), start[2], min(28, start[3] + r.randrange(0, 3)))
+            return ("d", min(9999, start[1] + r.randrange(0, 2)), start[2], min(28, start[3] + r.randrange(0, 3)))
         e = list(start)
-        e[1] = min(2037, e[1] + r.randrange(0, 2))
+        e[1] = min(9999 if e[7] in (None, "UTC") else 2037, e[1] + r.randrange(0, 2))
         e[4] = min(23, e[4] + r.randrange(0, 3))
         return tuple(e)
 
@@ -398,14 +405,30 @@ def emit_params(params, derived):
     return "".join(out)
 
 
-def emit_lines(model):
+def emit_lines(model, interleave=None):
+    """interleave: a random.Random - subcomponents are then placed between the properties (any order is well-formed);
+    VTIMEZONEs stay in front so that zones are defined before use (zone scope is C12's subject)."""
     _, name, props, subs = model
     lines = [f"BEGIN:{name}"]
+    blocks = []
     for pname, params, v in props:
         derived, text = emit_value(pname.upper(), v)
-        lines.append(f"{pname}{emit_params(params, derived)}:{text}")
+        blocks.append([f"{pname}{emit_params(params, derived)}:{text}"])
+    tail = []
     for s in subs:
-        lines.extend(emit_lines(s))
+        sl = emit_lines(s, interleave)
+        if interleave is not None and s[1] != "VTIMEZONE" and blocks:
+            tail.append((interleave.randrange(len(blocks) + 1), sl))
+        else:
+            tail.append((len(blocks) if s[1] != "VTIMEZONE" else -1, sl))
+    for pos, sl in tail:
+        if pos == -1:
+            lines.extend(sl)
+    for i, b in enumerate(blocks + [[]]):
+        for pos, sl in tail:
+            if pos == i:
+                lines.extend(sl)
+        lines.extend(b)
     lines.append(f"END:{name}")
     return lines
 
@@ -426,8 +449,8 @@ def fold(line, limit=75):
     return "\r\n ".join(out)
 
 
-def emit(model):
-    return "".join(fold(l) + "\r\n" for l in emit_lines(model))
+def emit(model, interleave=None):
+    return "".join(fold(l) + "\r\n" for l in emit_lines(model, interleave))
 
 
 # ---------------------------------------------------------------- API builder (G4)
